@@ -104,3 +104,41 @@ class _h1:
         over = wsum(d, w, lambda x: x > bins[-1][1])
         return And(Implies(consecutive, And(missed[0] == under, missed[1] == over)),
                    Implies(Not(consecutive), And(isnan(missed[0]), isnan(missed[1]))))
+
+
+@contract("physt._facade:h1", props=["C01", "C17"], name="physt._facade:h1[infinite values]")
+class _h1_inf:
+    """an infinite value is an entry like any other -- it lies below / above every bin and is counted in underflow / overflow with its
+    weight (it is not "missing data").  Arithmetic on infinities is outside the symbolic value model (the statistics multiply the data
+    by the weights), so this contract is decided by the cross-check on the real code only (bounded stand-in)."""
+    bounded = True
+    bound_note = "h1 with infinite values: decided by the cross-check on the real code only; 3 values, 2 bins"
+    standin = True
+
+    def configs():
+        return [{"sign": 1.0, "weights": True, "dropna": True}, {"sign": -1.0, "weights": False, "dropna": True},
+                {"sign": 1.0, "weights": False, "dropna": False}]
+
+    def inputs(b):
+        c = b.cfg
+        binning = make_binning(b, "B", "fixed", 2)
+        data = b.array("d", (3,))
+        if isinstance(data, np.ndarray):
+            data[1] = c.sign * float("inf")
+        else:
+            data.set((1,), c.sign * float("inf"))
+        kw = dict(data=data, bins=binning, dropna=c.dropna)
+        if c.weights:
+            kw["weights"] = b.array("w", (3,))
+            nonneg(b, kw["weights"])
+        return kw
+
+    @ensures("infinite_values_are_counted_below_or_above_the_bins")
+    def _(a, old, result):
+        bins = bins_of(old.bins)
+        d = elems(old.data)
+        w = elems(old.weights) if hasattr(old, "weights") else None
+        f = elems(attr(result, "_frequencies"))
+        missed = elems(attr(result, "_missed"))
+        return And(*[close(f[k], wsum(d, w, lambda x, k=k: inbin(bins, k, x))) for k in range(len(bins))],
+                   close(missed[0], wsum(d, w, lambda x: x < bins[0][0])), close(missed[1], wsum(d, w, lambda x: x > bins[-1][1])))
